@@ -31,7 +31,7 @@ ASSUMPTIONS = [
 ]
 REQUIRED_CLASSES = ["negative-step", "repeats", "empty-selection", "select-select-concat", "replace-then-select", "select-then-replace",
                     "crlf", "noncanonical-int", "unmodified", "modified", "observed-then-continued", "write-and-rows", "same-length-permutation", "typed-info", "typed-info-read-and-replace",
-                    "bam", "bam-write-selection", "bam-observe-after-write", "bam-get-then-write", "bam-same-length-permutation"]
+                    "bam", "bam-write-selection", "bam-observe-after-write", "bam-get-then-write", "bam-same-length-permutation", "attribute-assignment-on-a-selection-then-observation"]
 BOUNDS = {"quick": "500 (file, program) pairs for each of 9 text format variants, up to 10 records, programs of up to 6 steps; 400 BAM pairs of up to 6 records",
           "thorough": "10000 pairs per text format, up to 30 records, programs of up to 8 steps; 9600 BAM pairs of up to 16 records"}
 BUDGET_S = {"quick": 200, "thorough": 1500}
@@ -173,6 +173,19 @@ def run_program(case, on_observe=None):
             models.append([dict(r, repl=dict(r["repl"], **{fname: t})) for r, t in zip(models[s], texts)])
             cols.append(cols[s] | {fname})
             exact.append(False)
+        elif kind == "assign":
+            # explicit attribute assignment on one table of the pool (the documented way to modify): that table changes, no other one does
+            s = op["src"] % len(reals)
+            if s == 0 or not hasattr(reals[s], "get_data_object"):
+                continue          # (the source table itself is kept as read; eagerly read tables share columns with their selections by design)
+            fname = op["field"]
+            col, fkind = REPL[case["fmt"]][fname]
+            n = len(models[s])
+            texts = [new_value_text(fkind, op["seed"], i) for i in range(n)]
+            setattr(reals[s], fname, to_array(fkind, texts))
+            models[s] = [dict(r, repl=dict(r["repl"], **{fname: t})) for r, t in zip(models[s], texts)]
+            cols[s] = cols[s] | {fname}
+            exact[s] = False
         else:
             s = op["src"] % len(reals)
             pyidx, npidx = _resolve_index(op, len(models[s]))
@@ -198,6 +211,8 @@ def classify(case):
     prog = case["program"]
     kinds = [op["op"] for op in prog]
     cl = [case["fmt"]]
+    if "assign" in kinds and any(k in ("write", "rows") for k in kinds[kinds.index("assign"):]):
+        cl.append("attribute-assignment-on-a-selection-then-observation")
     if any(op["op"] == "slice" and (op.get("step") or 1) < 0 for op in prog):
         cl.append("negative-step")
     if any(op["op"] == "ilist" and len(set(op["idx"])) < len(op["idx"]) for op in prog):
@@ -400,9 +415,11 @@ def op_strategy(fmt):
     concat = st.tuples(st.integers(0, 9), st.integers(0, 9)).map(lambda t: {"op": "concat", "srcs": list(t)})
     repl = st.builds(lambda f, s: {"op": "replace", "src": 0, "field": f, "seed": s},
                      st.sampled_from(sorted(REPL[fmt])), st.integers(0, 1000))
+    assign = st.builds(lambda f, s: {"op": "assign", "src": 0, "field": f, "seed": s},
+                       st.sampled_from(sorted(REPL[fmt])), st.integers(0, 1000))
     obs = st.sampled_from([{"op": "write", "src": 0}, {"op": "rows", "src": 0}])
     perm = st.integers(0, 20).map(lambda k: {"op": "perm", "src": 0, "seed": k})
-    base = st.one_of(sl, mask, ilist, concat, repl, sl, ilist, obs, perm)
+    base = st.one_of(sl, mask, ilist, concat, repl, sl, ilist, obs, perm, assign)
 
     def with_src(op, src):
         if "src" in op:
